@@ -29,7 +29,7 @@ func init() {
 		Rule: "every case is one call of the real JSON.parse / JSON.stringify (through Value.Call) compared with ref/json (ES5.1 15.12.1-15.12.3). " +
 			"tokens: every concatenation of <= 5 (quick) / 6 (thorough) tokens of a 19-token alphabet; mutate: every single-character insert/replace/delete (27-character alphabet) at every position of 64 valid texts (thorough: also pairs on short texts); " +
 			"ptext: every JSON value of the stated depth rendered as text, canonical and with <= 1 (2) spelling deviations (white space at a token boundary, alternative escape/number spelling); revive: texts x 11 reviver arguments with the call log; " +
-			"stringify: values x replacer x space; revive-mut / stringify-mut: revivers, replacer functions and toJSON that overwrite / replace / delete / add not-yet-visited members of their holder (or of the value) through this at their first call; args: script-level calls with non-string / missing arguments and script callbacks; special: toJSON/wrappers/functions/undefined/holes/prototype/attributes/sharing; cycles: cycles of length 1-3; sharing: the same function / wrapper / toJSON-bearing object / array / object reached twice (siblings, aunt-niece, via toJSON or replacer results) must not be a cycle, self references and length-2 cycles through each kind; roundtrip; order: dedicated key-order probes. " +
+			"stringify: values x replacer x space; revive-mut / stringify-mut: revivers, replacer functions and toJSON that overwrite / replace / delete / add not-yet-visited members of their holder (or of the value) through this at their first call; args: script-level calls with non-string / missing arguments and script callbacks; special: toJSON/wrappers/functions/undefined/holes/prototype/attributes/sharing; cycles: cycles of length 1-3; sharing: the same function / wrapper / toJSON-bearing object / array / object reached twice (siblings, aunt-niece, via toJSON or replacer results) must not be a cycle, self references and length-2 cycles through each kind; roundtrip; order: dedicated key-order probes; escapelike: every string of <= 3 fragments over {backslash, quote, u003c, u003e, u0026, u2028, u0000, n, /, <, >, &, U+2028, U+0000, a} (content that looks like an escape sequence) as value / property name / nested value / nested property name x space in {absent, 2, \"--\"}, plus parse(stringify(v)). " +
 			"A case is non-trivial when at least one side accepts the text / produces a text (not: both reject with SyntaxError).",
 		Families: []engine.Family{
 			{Name: "selfcheck", Run: runSelfcheck, Solo: true},
@@ -50,6 +50,7 @@ func init() {
 			{Name: "env", Run: runEnv},
 			{Name: "reentrant", Run: runReentrant},
 			{Name: "roundtrip", Run: runRoundtrip},
+			{Name: "escapelike", Run: runEscapeLike},
 			{Name: "ptext", Run: runPText},
 			{Name: "stringify", Run: runStringify},
 			{Name: "tokens", Run: runTokens},
